@@ -95,7 +95,7 @@ Qed.
 
 (* ------------------------------------------------------------------ the (extended) reference machine *)
 Definition tokstep (s s' : st) : Prop :=
-  exists d, read_id (s_data s) = Ok (L_I64, d) /\ s_ps s <> ObjectToArray /\
+  exists d, read_id (s_data s) = Ok (L_I64, d) /\ (s_ps s = Key \/ s_ps s = OpenFirst) /\
             s' = mkst d (next_tbl (s_ps s)) (s_par s) (push (s_tape s) (TToken L_I64)).
 
 Definition xstep (fx : bool) (s s' : st) : Prop :=
@@ -118,6 +118,7 @@ Proof.
   intros fx s s' HI [H|[_ (d & Hr & Hne & ->)]].
   - eapply iter_ref_inv; eauto.
   - destruct HI as [Ho Hs]. unfold Inv; cbn. apply push_next_ok; auto.
+    destruct Hne as [E|E]; rewrite E; discriminate.
 Qed.
 
 Lemma xstar_inv : forall fx s s', xstar fx s s' -> Inv s -> Inv s'.
@@ -248,11 +249,11 @@ Qed.
 Lemma token_xstep : forall fx data id d ps par t,
   read_id data = Ok (id, d) ->
   (classify id = COther \/ classify id = CRgb) \/ (fx = false /\ id = L_I64) ->
-  ps <> ObjectToArray -> ps <> ObjectValue ->
+  ps = Key \/ ps = OpenFirst ->
   xstep fx (mkst data ps par t) (mkst d (next_tbl ps) par (push t (TToken id))).
 Proof.
-  intros fx data id d ps par t Hr [Hc|[-> ->]] H1 H2.
-  - eapply ref_step; eauto. now apply slow_token.
+  intros fx data id d ps par t Hr [Hc|[-> ->]] Hp.
+  - eapply ref_step; eauto. apply slow_token; auto; destruct Hp as [-> | ->]; discriminate.
   - right. split; auto. exists d. cbn. auto.
 Qed.
 
@@ -429,7 +430,7 @@ Proof.
     destruct ((negb (N.eqb id L_F64) && negb (N.eqb id L_U64) && negb (fx && N.eqb id L_I64))%bool) eqn:H2;
       [|fall_here].
     pose proof (token_class fx id H1 H2) as Hc.
-    eapply sim_res_step; [eapply token_xstep; eauto; discriminate|]. cbn [next_tbl].
+    eapply sim_res_step; [eapply token_xstep; eauto|]. cbn [next_tbl].
     rd_id d; [|eof_here].
     destruct (N.eqb_spec id0 L_EQUAL) as [->|Hne]; [|fall_here].
     adv. rd_id d0; [|eof_here].
@@ -445,7 +446,7 @@ Proof.
       assert (Hc4 : (classify id0 = COther \/ classify id0 = CRgb) \/ fx = false /\ id0 = L_I64).
       { destruct (tokenish fx id0) eqn:H4; [now apply tokenish_class|].
         cbn in H3. apply N.eqb_eq in H3. subst. left. left. reflexivity. }
-      eapply sim_res_step; [eapply token_xstep; eauto; discriminate|]. cbn [next_tbl].
+      eapply sim_res_step; [eapply token_xstep; eauto|]. cbn [next_tbl].
       rd_id d2; [|eof_here].
       destruct (N.eqb_spec id1 L_EQUAL) as [->|Hm5]; [|fall_here].
       match goal with |- context [set_parent_to_object ?p ?tt] =>
@@ -484,7 +485,7 @@ Proof.
       adv. rd_id d2; [|eof_here].
       destruct (tokenish fx id) eqn:H3; [|fall_here].
       pose proof (tokenish_class fx id H3) as Hc4.
-      eapply sim_res_step; [eapply token_xstep; eauto; discriminate|]. cbn [next_tbl].
+      eapply sim_res_step; [eapply token_xstep; eauto|]. cbn [next_tbl].
       rd_id d3; [|eof_here].
       destruct (N.eqb_spec id0 L_EQUAL) as [->|Hm5]; [|fall_here].
       match goal with |- context [set_parent_to_object ?p ?tt] =>
@@ -710,3 +711,77 @@ Proof.
   pose proof (opt_halts true (S (length d)) (init d) (Inv_init d) (Nat.lt_succ_diag_r _)) as (s' & r & A & B & C).
   rewrite (ref_run true _ _ A r (S (length d)) B (Nat.lt_succ_diag_r _)). now symmetry.
 Qed.
+
+(* ------------------------------------------------------------------ the code as it is (fx = false) *)
+(* the exclusion that characterises finding B: the extended machine never meets the I64 id as the
+   next lexeme in key position (state Key) or as first element of a container (state OpenFirst) --
+   the states in which the three id-class tests of the fast path are evaluated *)
+Definition i64_never_in_key_position (d : bytes) : Prop :=
+  forall s, xstar false (init d) s -> s_ps s = Key \/ s_ps s = OpenFirst ->
+            forall r, read_id (s_data s) <> Ok (L_I64, r).
+
+Lemma xstar_false_true : forall s s', xstar false s s' ->
+  (forall s2, xstar false s s2 -> s_ps s2 = Key \/ s_ps s2 = OpenFirst -> forall r, read_id (s_data s2) <> Ok (L_I64, r)) ->
+  xstar true s s'.
+Proof.
+  induction 1; intros Hn; [constructor|].
+  destruct H as [H|[_ (d & Hr & Hp & _)]].
+  - econstructor; [left; exact H|]. apply IHxstar. intros s3 Hs3. apply Hn. econstructor; [left; exact H | exact Hs3].
+  - exfalso. eapply (Hn s); eauto. constructor.
+Qed.
+
+Theorem fast_eq_ref_no_i64 : forall d, i64_never_in_key_position d ->
+  obs (parse false true d) = obs (parse false false d).
+Proof.
+  intros d Hn. unfold parse.
+  pose proof (opt_halts false (S (length d)) (init d) (Inv_init d) (Nat.lt_succ_diag_r _)) as (s' & r & A & B & C).
+  apply xstar_false_true in A; [|exact Hn].
+  rewrite (ref_run false _ _ A r (S (length d)) B (Nat.lt_succ_diag_r _)). now symmetry.
+Qed.
+
+Theorem ref_fx_irrelevant : forall fx d, parse fx false d = parse false false d.
+Proof.
+  intros fx d. unfold parse. generalize (init d). induction (S (length d)); intro s; cbn [loop]; [reflexivity|].
+  rewrite iter_fx_irrelevant. destruct (iter false false s); auto.
+Qed.
+
+(* non-vacuity of the exclusion: `0x2d82 = I32 89`, every reachable state enumerated *)
+Ltac run_star H :=
+  let Hstep := fresh "Hstep" in let Hrest := fresh "Hrest" in
+  inversion H as [|? ? ? Hstep Hrest]; subst;
+  [ intros _ ? E; vm_compute in E; discriminate
+  | destruct Hstep as [Hstep|[_ (? & Hstep & _)]];
+    [ vm_compute in Hstep; inversion Hstep; subst; clear Hstep; run_star Hrest
+    | vm_compute in Hstep; discriminate ] ].
+
+Example i64_never_example : i64_never_in_key_position [130;45; 1;0; 12;0; 89;0;0;0]%N.
+Proof. intros s H. run_star H. Qed.
+
+(* ------------------------------------------------------------------ the executable checker *)
+Lemma dyck_closed : forall b l, closed_seq b l -> (b <> 0 \/ not_cont_hd l) ->
+  forall stack rest, dyck b stack (l ++ rest) = dyck (b + length l) stack rest.
+Proof.
+  induction 1; intros Hb stack rest.
+  - cbn. now rewrite Nat.add_0_r.
+  - cbn [app length]. replace (b + S (length r)) with (S b + length r) by lia.
+    rewrite <- IHclosed_seq by (left; lia).
+    destruct x; cbn in H; try discriminate; reflexivity.
+  - assert (Hb0 : b <> 0).
+    { destruct Hb as [|Hh]; auto. intros ->. specialize (Hh c eq_refl). apply container_end_is in H. congruence. }
+    cbn [app]. rewrite <- app_assoc. cbn [app length]. rewrite app_length. cbn [length].
+    assert (Hin : forall st, dyck (S b) ((b, e) :: st) (inner ++ TEnd b :: r ++ rest) = dyck (b + S (length inner + S (length r))) st rest).
+    { intros st. rewrite IHclosed_seq1 by (left; lia). cbn [dyck].
+      rewrite Nat.eqb_refl. replace (Nat.eqb e (S b + length inner)) with true by (symmetry; apply Nat.eqb_eq; lia).
+      cbn [andb]. replace (S (S b + length inner)) with (S e) by lia.
+      rewrite IHclosed_seq2 by (left; lia). f_equal. lia. }
+    destruct c; cbn in H; try discriminate; inversion H; subst e0; cbn [dyck];
+      (destruct (Nat.eqb b 0) eqn:Eb; [apply Nat.eqb_eq in Eb; congruence|]); cbn [negb andb]; apply Hin.
+Qed.
+
+Theorem closed_checker : forall t, closed_seq 0 t -> not_cont_hd t -> tape_wfb t = true.
+Proof.
+  intros t H Hh. unfold tape_wfb. rewrite <- (app_nil_r t). rewrite (dyck_closed 0 t H (or_intror Hh)). reflexivity.
+Qed.
+
+Theorem parse_checker : forall fx opt d t, parse fx opt d = Ok t -> tape_wfb t = true.
+Proof. intros fx opt d t H. apply parse_wf in H. destruct H as (_ & _ & [Hh _] & Hc). now apply closed_checker. Qed.
